@@ -201,6 +201,89 @@ def random_worker(widx, n_examples):
     return res
 
 
+# ---------------------------------------------------------------------------------------------- level 2: manifest -> real binary
+def let_escape(b):
+    """a byte string as the value of a manifest binding"""
+    out = b.replace(b"$", b"$$")
+    if out.startswith(b" "):
+        out = b"$ " + out[1:]
+    return out
+
+
+def level2_case(root, ninja, argdump, ins, outs, tag, fail):
+    d = os.path.join(root, "l2")
+    shutil.rmtree(d, ignore_errors=True)
+    os.makedirs(d)
+    for n in ins:
+        open(os.path.join(d.encode(), n), "wb").close()
+    L = [b"ad = " + argdump.encode() + b"\n"]
+    for i, n in enumerate(ins):
+        L.append(b"i%d = " % i + let_escape(n) + b"\n")
+    for i, n in enumerate(outs):
+        L.append(b"o%d = " % i + let_escape(n) + b"\n")
+    L.append(b"tag = " + let_escape(tag) + b"\n")
+    L.append(b"rule r\n  command = $ad $in -- $out > dump.bin && cat rsp.txt > rspcopy.bin $fail\n  rspfile = rsp.txt\n  rspfile_content = RSP:$tag\n")
+    L.append(b"build " + b" ".join(b"${o%d}" % i for i in range(len(outs))) + b": r " + b" ".join(b"${i%d}" % i for i in range(len(ins))) + b"\n")
+    L.append(b"  fail = " + (b"&& false" if fail else b"") + b"\n")
+    open(os.path.join(d, "build.ninja"), "wb").write(b"".join(L))
+    home = os.path.join(root, "home2")
+    os.makedirs(home, exist_ok=True)
+    p = subprocess.run([ninja], cwd=d, env=dict(os.environ, HOME=home, TERM="dumb", a="EXPANDED"), capture_output=True, timeout=60)
+    detail = dict(ins=[i.hex() for i in ins], outs=[o.hex() for o in outs], tag=tag.hex(), fail=fail, output=(p.stdout + p.stderr)[-300:].decode("latin-1"))
+    try:
+        dump = open(os.path.join(d, "dump.bin"), "rb").read()
+    except FileNotFoundError:
+        return dict(kind="the command did not run (or could not write its dump): ninja exit %d" % p.returncode, detail=detail)
+    parsed = parse_argdump(dump, 1)
+    want = ins + [b"--"] + outs
+    if parsed is None or parsed[0] != want:
+        return dict(kind="the command received %r, expected %r" % (parsed[0] if parsed else dump[:200], want), detail=detail)
+    rsp = open(os.path.join(d, "rspcopy.bin"), "rb").read() if os.path.exists(os.path.join(d, "rspcopy.bin")) else None
+    if rsp != b"RSP:" + tag:
+        return dict(kind="response file held %r when the command started, expected %r" % (rsp, b"RSP:" + tag), detail=detail)
+    left = os.path.exists(os.path.join(d, "rsp.txt"))
+    if fail and (p.returncode == 0 or not left):
+        return dict(kind="failing command: exit %d, response file kept: %s (must be kept)" % (p.returncode, left), detail=detail)
+    if not fail and (p.returncode != 0 or left):
+        return dict(kind="successful command: exit %d, response file still there: %s (must be removed)" % (p.returncode, left), detail=detail)
+    if os.listdir(home):
+        return dict(kind="files appeared in $HOME", detail=detail)
+    return None
+
+
+def level2_worker(widx, n_examples):
+    res = common.Result()
+    state = {}
+    budget = common.ShrinkBudget()
+    root = common.scratch_root()
+    ninja = build.ninja_binary("rel")
+    argdump = build.c_tool("argdump")
+    b1 = st.integers(1, 255).filter(lambda c: c not in (10, 13, 47)).map(lambda c: bytes([c]))
+    nm = st.lists(st.one_of(b1, st.sampled_from([s_ for s_ in SPECIAL if s_ != b"/"])), min_size=1, max_size=12).map(b"".join).filter(lambda n: n not in (b".", b"..") and len(n) < 200)
+    try:
+        @hseed(common.sub_seed(PROP, 'l2', widx))
+        @settings(max_examples=n_examples, deadline=None, database=None, suppress_health_check=list(HealthCheck),
+                  phases=[Phase.generate, Phase.shrink], verbosity=Verbosity.quiet, report_multiple_bugs=False)
+        @given(st.lists(nm, min_size=1, max_size=3, unique=True), st.lists(nm, min_size=1, max_size=2, unique=True), nm, st.booleans())
+        def test(ins, outs, tag, fail):
+            if set(ins) & set(outs) or any(x in (b"dump.bin", b"rsp.txt", b"rspcopy.bin", b"build.ninja") for x in ins + outs):
+                return
+            case = dict(level2=True, ins=[i.hex() for i in ins], outs=[o.hex() for o in outs], tag=tag.hex(), fail=fail)
+            dg = common.digest(case)
+            if budget.skip(dg):
+                return
+            f = level2_case(root, ninja, argdump, ins, outs, tag, fail)
+            res.case(case, True, ['l2:fail' if fail else 'l2:ok'], sample=dict(ins=[repr(i) for i in ins], outs=[repr(o) for o in outs], fail=fail))
+            if f:
+                state['fail'] = (case, "[real binary] %s %s" % (f['kind'], json.dumps(f['detail'])[:800]))
+                budget.failed(dg)
+                raise AssertionError()
+        common.run_hypothesis(test, state, res)
+    finally:
+        shutil.rmtree(root, ignore_errors=True)
+    return res
+
+
 def run(tier):
     ck = common.Check(PROP, tier, "exploration",
                       "level 1 (real /bin/sh): EVERY name of 1 and 2 bytes (all byte values except NUL and LF) and every 3-byte name over the 26-character "
@@ -209,13 +292,16 @@ def run(tier):
                       "home directories stay untouched, safe names appear verbatim, $in_newline has one such word per line. Non-trivial = name needs "
                       "quoting; enumerated names are distinct by construction.",
                       ["/bin/sh is dash on this image; decoy files and variables are planted so that globbing/expansion would be visible",
-                       "level 2 (through a manifest, the real binary and the rspfile life-cycle) is part of the E2E check set"])
+                       "level 2: names and the rspfile content reach the manifest through variables (every byte except NUL, LF, CR and, for names, /), the real binary runs the command, argv is dumped and the rspfile life-cycle (content at start, removed after success, kept after failure) is checked"])
     res = common.run_workers(enum_worker, [(w, common.NCPU, tier) for w in range(common.NCPU)])
     ck.merge(res)
     nquote = res.extra.get("names_needing_quotes", 0)
     r2 = common.run_workers(random_worker, [(w, (3000 if tier == "thorough" else 150)) for w in range(common.NCPU)])
     ck.merge(r2)
-    for f in res.failures + r2.failures:
+    r3 = common.run_workers(level2_worker, [(w, (1500 if tier == "thorough" else 40)) for w in range(common.NCPU)])
+    ck.merge(r3)
+    ck.extra_cov['level2_cases'] = r3.evaluations
+    for f in res.failures + r2.failures + r3.failures:
         if not f.get("harness_error"):
             ck.violation(f["case"], f["why"])
     ck.extra_cov.update(exhaustive=not res.failures, distinct_nontrivial=nquote + len(r2.nontrivial), enumerated_names=res.extra.get("names", 0))
@@ -225,6 +311,19 @@ def run(tier):
 def replay(path):
     j = json.load(open(path))
     c = j.get("case", j)
+    if c.get("level2"):
+        root = common.scratch_root()
+        try:
+            f = level2_case(root, build.ninja_binary("rel"), build.c_tool("argdump"), [bytes.fromhex(i) for i in c["ins"]], [bytes.fromhex(o) for o in c["outs"]],
+                            bytes.fromhex(c["tag"]), c["fail"])
+        finally:
+            shutil.rmtree(root, ignore_errors=True)
+        if f:
+            print("finding:", f["kind"])
+            print("VIOLATION property=%s replay=%s" % (PROP, path))
+            return 1
+        print("replay: no violation")
+        return 0
     sh = Shell()
     try:
         with Probe("san") as probe:
